@@ -67,6 +67,10 @@ def handle : Handler := fun cmd j =>
     let dir ← chars j "dir"
     let cs ← getStrs j "chunks"
     pure (Json.arr ((updateOps thin nofetch old text dir (cs.map String.toList)).map Pkgcore.Driver.C24.ofOp).toArray)
+  | "c28.abortops" => do
+    let dir ← chars j "dir"
+    let cs ← getStrs j "written"
+    pure (Json.arr ((abortWriteOps dir (cs.map String.toList)).map Pkgcore.Driver.C24.ofOp).toArray)
   | "c28.crash" => do
     -- Manifest and temp file after the first k operations of update()
     let thin ← getBool j "thin"
